@@ -30,7 +30,9 @@ pub(crate) fn make_include_filename(incname: &str, base_filename: &OsStr) -> OsS
         }
     }
 
-    OsString::from(incname)
+    // there is no base directory, or the file does not exist there: the name is used relative to the
+    // current directory, with the same separators as in the other cases
+    OsString::from(normalized_incname)
 }
 
 pub fn load(path: &Path) -> Result<String, A2lError> {
